@@ -16,6 +16,11 @@ func pfbWF(r *pfbReader) bool {
 	return r.r != nil && r.len >= 0 && r.len <= 0xffffffff
 }
 
+//@ func Decode
+//@ safety C01
+//@ requires r != nil
+//@ ensures result != nil
+
 //@ func (*pfbReader).Read
 //@ safety C01 C14
 //@ requires r != nil && pfbWF(r)
